@@ -1903,9 +1903,10 @@ class ShortcutNode(ListNode):
         """
         if edge.type != node.type or edge.value is None or node.value is None:
             return False
+        # the value as it is written: a negated identifier (u=-5) does not repeat its positive twin
         if edge.type in {int, float}:
             return math.isclose(
-                edge.value, node.value, rel_tol=rel_tol, abs_tol=abs_tol
+                edge._print_value, node._print_value, rel_tol=rel_tol, abs_tol=abs_tol
             )
         return edge.value == node.value
 
@@ -2007,7 +2008,11 @@ class ShortcutNode(ListNode):
         ret = ""
         for node in self.nodes:
             ret = ListNode._join_entries(ret, node.format())
-        self._written_tail = self.nodes[-1].value if len(self.nodes) > 0 else None
+        self._written_tail = (
+            self.nodes[-1]._print_value
+            if len(self.nodes) > 0 and self.nodes[-1].value is not None
+            else None
+        )
         return ret
 
     def _format_jump(self):
@@ -2038,7 +2043,7 @@ class ShortcutNode(ListNode):
             if node.value is None:
                 return False
             if node.type in {int, float}:
-                if not self._is_close(value, node.value):
+                if not self._is_close(value, node._print_value):
                     return False
             elif value != node.value:
                 return False
@@ -2054,11 +2059,11 @@ class ShortcutNode(ListNode):
         elif (
             len(nodes) >= 2
             and nodes[0].value is not None
-            and self._all_repeat(nodes[0].value, nodes[1:])
+            and self._all_repeat(nodes[0]._print_value, nodes[1:])
         ):
             first_val = nodes[0].format()
             num_repeats = len(nodes) - 1
-            self._written_tail = nodes[0].value
+            self._written_tail = nodes[0]._print_value
         else:
             return None
         self._num_node.value = num_repeats
